@@ -57,19 +57,12 @@ theorem C16_gen_account_writers :
   decide
 
 set_option maxRecDepth 8192 in
-/-- **C16, time-out kinds.** `pre_timestep` decides exactly twice, in this order: the LOCAL session against
-`local_session_timeout_steps`, each REMOTE session against `remote_session_timeout_steps`, both with `<=` (model: `Node.localExpired`
-with `localTimeout`, `Node.expired` with `remoteTimeout`); it calls no helper of `self` but `_timeout_session`, which tells the kinds
+/-- **C16, time-out kinds.** (What `pre_timestep` decides is no longer pinned here: the method is translated and proved equal to
+the model's time-out step in Props/C16Tr.lean, `C16_gen_pre_timestep`.) `_timeout_session` tells the kinds
 apart by `session.local`; the only assignment to a `last_active_step` in the whole package is the one in `Terminal.receive` for the
 session a command was accepted on (model: `Node.touch` in `opRemoteCmdK`) — nothing moves the clock of a local session. -/
 theorem C16_gen_timeout_kinds :
-    Gen.Session.preTimestepTimeoutTests =
-      [("self.local_session.last_active_step + self.local_session_timeout_steps <= timestep",
-        "inactive_sessions.append(self.local_session)"),
-       ("remote_session.last_active_step + self.remote_session_timeout_steps <= timestep",
-        "inactive_sessions.append(remote_session)")] ∧
     Gen.Session.timeoutSessionTests = ["session.local"] ∧
-    Gen.Session.preTimestepSelfCalls = ["self._timeout_session"] ∧
     Gen.Session.lastActiveStepWrites =
       ["simulator/system/services/terminal/terminal.py:Terminal.receive: remote_session.last_active_step = self.software_manager.node.user_session_manager.current_timestep"] ∧
     Gen.Session.sessionCreateClocks =
